@@ -316,6 +316,16 @@ pub fn schedule_streams(thorough: bool) -> Vec<GenStream> {
             }
         }
     }
+    // inputs in which unrelated bytes follow the stream (containers, concatenated streams): the
+    // split may then fall inside the zlib trailer *and* the next call still has plenty of input
+    let tailed: Vec<GenStream> = v.iter().filter(|s| s.bytes.len() <= 80 && s.plain.len() > 0).step_by(if thorough { 2 } else { 6 }).cloned().collect();
+    for s in tailed {
+        for tail in [s.bytes[..8.min(s.bytes.len())].to_vec(), vec![0u8; 5]] {
+            let mut b = s.bytes.clone();
+            b.extend_from_slice(&tail);
+            v.push(GenStream { bytes: b, desc: format!("trailing{}[{}]", tail.len(), s.desc), ..s.clone() });
+        }
+    }
     v
 }
 
